@@ -1,9 +1,9 @@
 CONSTANTS
-  N = 2
+  N = 1
   Budget = 99
   MaxChD = 4
   CiMax = 1
-  Wide = FALSE
+  Wide = TRUE
 INIT Init
 NEXT Next
 INVARIANT Out
